@@ -345,8 +345,28 @@ func enumSingle(s pbt.Src, thorough bool) SingleCase {
 	return c
 }
 
+// bigCodes: a long slice (hundreds to thousands of codes a*i+b mod alpha; alpha either small, so that values repeat
+// very often, or about half the length, so that the result is long as well).
+func bigCodes(s pbt.Src) []int {
+	n := []int{255, 256, 257, 1000, 1024, 1025, 2048, 3000}[s.Intn(8)]
+	alpha := 2 + s.Intn(12)
+	if pbt.Bool(s) {
+		alpha = n/2 + s.Intn(7)
+	}
+	a, b := 1+s.Intn(9), s.Intn(9)
+	out := make([]int, n)
+	for i := range out {
+		out[i] = (a*i*i + b*i) % alpha
+	}
+	return out
+}
+
 func genSingle(s pbt.Src, thorough bool) SingleCase {
 	c := SingleCase{Typ: s.Intn(nTyp), Fn: s.Intn(nFns)}
+	if s.Intn(14) == 0 {
+		c.A = bigCodes(s)
+		return c
+	}
 	lo, alpha := -s.Intn(5), 2+s.Intn(12)
 	max := 24
 	if thorough {
@@ -509,7 +529,11 @@ func genTuple(s pbt.Src, thorough bool) TupleCase {
 	if thorough {
 		max = 32
 	}
+	big := s.Intn(14) == 0
 	c.Args = pbt.Seq(s, 1, 5, func(s pbt.Src) []int {
+		if big && s.Intn(3) != 0 {
+			return bigCodes(s)
+		}
 		a := pbt.Seq(s, 0, max, func(s pbt.Src) int { return lo + s.Intn(alpha) })
 		if a == nil {
 			a = []int{}
